@@ -64,7 +64,12 @@ func main() {
 	replay := flag.String("replay", "", "history.json to re-execute instead of exploring")
 	child := flag.Int64("child", -1, "run the single history with this history seed and exit (used by the parent process)")
 	jobs := flag.Int("jobs", 12, "parallel child processes")
+	subjects := flag.String("subjects", "", "write subject-construction cases for the Subjects model to this file and exit")
 	flag.Parse()
+	if *subjects != "" {
+		runSubjects(*seed, *n, *subjects)
+		return
+	}
 	if *replay != "" {
 		os.MkdirAll(*out, 0o755)
 		run, stall := Replay(*replay)
